@@ -279,14 +279,20 @@ func (commit *Commit) Height() int64 {
 	if len(commit.Precommits) == 0 {
 		return 0
 	}
-	return commit.FirstPrecommit().Height
+	if fp := commit.FirstPrecommit(); fp != nil {
+		return fp.Height
+	}
+	return 0
 }
 
 func (commit *Commit) Round() int64 {
 	if len(commit.Precommits) == 0 {
 		return 0
 	}
-	return commit.FirstPrecommit().Round
+	if fp := commit.FirstPrecommit(); fp != nil {
+		return fp.Round
+	}
+	return 0
 }
 
 func (commit *Commit) Type() byte {
